@@ -13,7 +13,25 @@ Open Scope N_scope.
 Definition attack := (N * list bytes * option bytes * result addr)%type.
 Inductive case :=
 | CResolve (rq : request) (r : resolver) (obs_base : result addr) (attacks : list attack)
-| CParse (s : bytes) (obs : pres addr).
+| CParse (s : bytes) (obs : pres addr)
+(* Context.ClientIP called inside fox: the router-wide resolver (None = not configured), the scope
+   (Some ov: a handler of a matched route whose own WithClientIPResolver is ov, None = it has none;
+   None: the no-route / no-method / redirect / options handlers), the request, the observed result *)
+| CVia (glob : option resolver) (route : option (option resolver)) (rq : request) (obs : result addr).
+
+(* the resolver Context.ClientIP must run: the matched route's own one inside its handlers, the
+   router-wide one everywhere else; without any, ErrNoClientIPResolver *)
+Definition designated_resolver (glob : option resolver) (route : option (option resolver)) : option resolver :=
+  match route with
+  | Some (Some r) => Some r
+  | _ => glob
+  end.
+
+Definition via_expected (run : request -> resolver -> result addr) glob route rq : result addr :=
+  match designated_resolver glob route with
+  | Some r => run rq r
+  | None => Err [ENoResolver]
+  end.
 
 Definition attacked (rq : request) (hdr : N) (extra : list bytes) (text : option bytes) : request :=
   if hdr =? 0 then {| xff := attack_lines extra text (xff rq); forwarded := forwarded rq; single := single rq; remote := remote rq |}
@@ -28,6 +46,7 @@ Definition model_agrees (c : case) : bool :=
     && forallb (fun a : attack => let '(hdr, extra, text, obs) := a in
                                   result_eqb (resolve (attacked rq hdr extra text) r) obs) attacks
   | CParse s obs => pres_eqb (parse_ip_addr s) obs
+  | CVia glob route rq obs => result_eqb (via_expected resolve glob route rq) obs
   end.
 
 (* ---------------- implementation vs specification ---------------- *)
@@ -114,6 +133,9 @@ Definition spec_ok (c : case) : bool :=
   | CParse s obs =>
     (* no independent specification of address syntax: the unverified helper is the oracle *)
     pres_eqb (parse_ip_addr s) obs
+  | CVia glob route rq obs =>
+    satisfies obs (via_expected spec_resolve glob route rq)
+    && match designated_resolver glob route with Some r => builtin_trust_audit rq r | None => true end
   end.
 
 Definition mismatches (cs : list case) : list nat := true_idx (map (fun c => negb (model_agrees c)) cs).
